@@ -10,6 +10,7 @@ def check(ctx):
     determinism.tmp_seed_typestate(ctx, 'C09-R3')
     determinism.no_hash_order(ctx, 'C09-R4')
     determinism.nondeterminism_taint(ctx, 'C09-R5')
+    determinism.no_uninitialised_memory(ctx, 'C09-R7')
     confinement.module_state(ctx, 'C09-R6')
     ctx.undecided += ['bitwise determinism inside scikit-learn / NumPy / pandas at a fixed thread count (A4)']
     ctx.assumptions += ['an estimator given an integer random_state does not touch the global generator',
